@@ -186,17 +186,31 @@ Proof.
   rewrite Ew in C. lia.
 Qed.
 
-Lemma deliver_all_excess g emitfrom depth n x m :
+(* one turn of the loop of _emit: the hand-over, or - for a child that left since the snapshot was taken - the release of
+   the reference that was retained for it.  Either way the excess drops by exactly the occurrences in m. *)
+Lemma hand_excess g emitfrom depth n x m d w w' :
+  graph_books g -> EmitSpec g emitfrom (S depth) -> ExcessSpec g emitfrom -> WF g w -> d < length g ->
+  hand emitfrom g depth n x m (w, SOk) d = (w', SOk) ->
+  WF g w' /\ forall r, excess g w' r = (excess g w r - occ m r)%Z.
+Proof.
+  intros Hb HE HX Hwf Hd H.
+  destruct (hand_cases emitfrom g depth n x m w SOk d) as [E|[_ [_ E]]]; rewrite E in H.
+  - eapply deliver_excess; eauto.
+  - injection H as <-. split; [apply WF_release; exact Hwf|].
+    intros r. unfold excess. rewrite cnt_release, holders_release. lia.
+Qed.
+
+Lemma hand_all_excess g emitfrom depth n x m :
   graph_books g -> EmitSpec g emitfrom (S depth) -> ExcessSpec g emitfrom ->
   forall l w w', WF g w -> (forall d, In d l -> d < length g) ->
-  fold_left (deliver emitfrom g depth n x m) l (w, SOk) = (w', SOk) ->
+  fold_left (hand emitfrom g depth n x m) l (w, SOk) = (w', SOk) ->
   WF g w' /\ forall r, excess g w' r = (excess g w r - Z.of_nat (length l) * occ m r)%Z.
 Proof.
   intros Hb HE HX. induction l as [|d t IH]; intros w w' Hwf Hl H; cbn [fold_left] in H.
   - injection H as <-. split; [exact Hwf|]. intros r. cbn. lia.
-  - destruct (deliver emitfrom g depth n x m (w, SOk) d) as [w1 s1] eqn:E1.
-    pose proof (deliver_ok_inv _ _ _ _ _ _ _ _ _ _ H) as ->.
-    destruct (deliver_excess _ _ _ _ _ _ _ _ _ Hb HE HX Hwf (Hl d (or_introl eq_refl)) E1) as [A1 B1].
+  - destruct (hand emitfrom g depth n x m (w, SOk) d) as [w1 s1] eqn:E1.
+    pose proof (hand_ok_inv _ _ _ _ _ _ _ _ _ _ H) as ->.
+    destruct (hand_excess _ _ _ _ _ _ _ _ _ Hb HE HX Hwf (Hl d (or_introl eq_refl)) E1) as [A1 B1].
     destruct (IH w1 w' A1 (fun d' Hd' => Hl d' (or_intror Hd')) H) as [A2 B2].
     split; [exact A2|]. intros r. rewrite B2, B1. cbn [length]. lia.
 Qed.
@@ -205,7 +219,7 @@ Theorem push_excess g : wf_dag g -> graph_books g ->
   forall fuel depth, ExcessSpec g (fun d => push fuel g depth d).
 Proof.
   intros Hdag Hb. induction fuel as [|fuel IH]; intros depth d w y my w' Hwf H r; cbn [push] in H; [discriminate|].
-  destruct (deliver_all_excess g _ depth d y my Hb (push_spec g Hdag fuel (S depth)) (IH (S depth))
+  destruct (hand_all_excess g _ depth d y my Hb (push_spec g Hdag fuel (S depth)) (IH (S depth))
               (downs g w d) _ w' (WF_retain _ _ _ _ Hwf)
               (fun dd Hdd => proj1 (is_down_In _ _ _ (downs_is_down _ _ _ _ Hdd))) H) as [_ B].
   rewrite B. unfold excess. rewrite cnt_retain, holders_retain. lia.
